@@ -341,6 +341,13 @@ def take(x, index, axis=0):
         raise ValueError(f"Array chunk size or shape is unknown. {unknown_chunk_message}")
 
 
+def _same_grid(a, b):
+    """Equal chunk layouts; unknown (nan) sizes in the same positions count as equal."""
+    return len(a) == len(b) and all(
+        len(x) == len(y) and all(p == q or (np.isnan(p) and np.isnan(q)) for p, q in zip(x, y)) for x, y in zip(a, b)
+    )
+
+
 class Slice(ArrayExpr):
     @functools.cached_property
     def _name(self):
@@ -381,7 +388,12 @@ class SliceSlicesIntegers(Slice):
                 # length can only be taken whole. Leave the two slices unfused
                 # rather than build a node the public API would have refused.
                 if not any(np.isnan(dim) and idx != slice(None, None, None) for dim, idx in zip(shape, normalized)):
-                    return SliceSlicesIntegers(self.array.array, normalized, self.allow_getitem_optimization)
+                    fused_slice = SliceSlicesIntegers(self.array.array, normalized, self.allow_getitem_optimization)
+                    # ``_simplify_down`` cannot see who consumes this slice, so the
+                    # fused node must keep the block grid this one advertises (a
+                    # strided inner slice can leave blocks the outer slice drops).
+                    if _same_grid(fused_slice.chunks, self.chunks):
+                        return fused_slice
             except NotImplementedError:
                 # Skip fusion for unsupported slicing patterns (e.g., negative step)
                 pass
